@@ -1,2 +1,108 @@
-/-! Line driver for C18 (stub; replaced when the model is written). -/
-def main : IO Unit := pure ()
+import MpVerif.C18.Parse
+import Std.Data.HashMap
+/-! Line driver for C18.  One line in, one line out; the part of a line after ` => ` (the
+implementation's answer) is ignored.
+
+```
+K <KINDNAME> <code> <hash:hex>     std::hash<int>(kind)            -> ok
+D <bits:hex> <hash:hex>            std::hash<double>               -> ok
+I <int> <hash:hex>                 std::hash<int>                  -> ok
+B <0|1> <hash:hex>                 std::hash<bool>                 -> ok
+C <byte> <hash:hex>                std::hash<char>                 -> ok
+F <fid> <hash:hex>                 std::hash<const char*>(name())  -> ok   (replaces earlier value)
+P E | E | E                        -> 9 outcomes of Equal(Ti,Tj) row by row (1 0 U X), 3 hashes (hex | U)
+```
+Contains no model logic: parsing, table lookups, calls of `equalX` / `hashX`. -/
+open MpVerif.C18
+
+structure Tables where
+  kind : Std.HashMap String UInt64 := {}
+  dbl : Std.HashMap UInt64 UInt64 := {}
+  int : Std.HashMap Int UInt64 := {}
+  bool : Std.HashMap Bool UInt64 := {}
+  char : Std.HashMap UInt8 UInt64 := {}
+  func : Std.HashMap Nat UInt64 := {}
+
+def Tables.prims (t : Tables) : Prims UInt64 where
+  hKind k := t.kind.getD k.name 0
+  hDbl v := t.dbl.getD v 0
+  hInt i := t.int.getD i 0
+  hBool b := t.bool.getD b 0
+  hChar c := t.char.getD c 0
+  hFun f := t.func.getD f 0
+
+def Tables.has (t : Tables) : Key → Bool
+  | .kind k => t.kind.contains k.name
+  | .dbl v => t.dbl.contains v
+  | .int i => t.int.contains i
+  | .bool b => t.bool.contains b
+  | .char c => t.char.contains c
+  | .func f => t.func.contains f
+
+def splitBar (toks : List String) : List (List String) :=
+  let rec go (cur : List String) (acc : List (List String)) : List String → List (List String)
+    | [] => (cur.reverse :: acc).reverse
+    | "|" :: r => go [] (cur.reverse :: acc) r
+    | t :: r => go (t :: cur) acc r
+  go [] [] toks
+
+def parseAll (groups : List (List String)) : Option (List T) :=
+  groups.mapM (fun g => match parseE g with
+    | some (e, []) => some e
+    | _ => none)
+
+def hashStr : Option UInt64 → String
+  | none => "U"
+  | some h => toHex h
+
+def doP (t : Tables) (toks : List String) : String :=
+  match parseAll (splitBar toks) with
+  | none => "bad-op"
+  | some ts =>
+    if ts.isEmpty || !(ts.all (fun e => (keys e).all t.has)) then "bad-op" else
+    let P := t.prims
+    let eqs := ts.flatMap (fun a => ts.map (fun b => (equalX ieee a b).toStr))
+    let hs := ts.map (fun a => hashStr (hashX P a))
+    " ".intercalate (eqs ++ hs)
+
+def step (t : Tables) (line : String) : Tables × String :=
+  let toks := (line.trimAscii.toString.splitOn " ").takeWhile (· != "=>")
+  match toks with
+  | ["K", name, _, h] =>
+    match Kind.table.lookup name, hexU64 h with
+    | some _, some h => ({ t with kind := t.kind.insert name h }, "ok")
+    | _, _ => (t, "bad-op")
+  | ["D", b, h] =>
+    match hexU64 b, hexU64 h with
+    | some b, some h => ({ t with dbl := t.dbl.insert b h }, "ok")
+    | _, _ => (t, "bad-op")
+  | ["I", i, h] =>
+    match i.toInt?, hexU64 h with
+    | some i, some h => ({ t with int := t.int.insert i h }, "ok")
+    | _, _ => (t, "bad-op")
+  | ["B", b, h] =>
+    match b, hexU64 h with
+    | "0", some h => ({ t with bool := t.bool.insert false h }, "ok")
+    | "1", some h => ({ t with bool := t.bool.insert true h }, "ok")
+    | _, _ => (t, "bad-op")
+  | ["C", c, h] =>
+    match c.toNat?, hexU64 h with
+    | some c, some h => if c < 256 then ({ t with char := t.char.insert c.toUInt8 h }, "ok") else (t, "bad-op")
+    | _, _ => (t, "bad-op")
+  | ["F", f, h] =>
+    match f.toNat?, hexU64 h with
+    | some f, some h => ({ t with func := t.func.insert f h }, "ok")
+    | _, _ => (t, "bad-op")
+  | "P" :: rest => (t, doP t rest)
+  | _ => (t, "bad-op")
+
+partial def loop (h : IO.FS.Stream) (out : IO.FS.Stream) (t : Tables) : IO Unit := do
+  let line ← h.getLine
+  if line.isEmpty then return ()
+  let (t, s) := step t line
+  out.putStrLn s
+  loop h out t
+
+def main : IO Unit := do
+  let out ← IO.getStdout
+  loop (← IO.getStdin) out {}
